@@ -40,10 +40,11 @@ EXTRA_MODULES = {
     "C06": ["Dreye.Props.Linalg", "Dreye.Props.C06Pivot", "Dreye.Props.C06Bridge", "Dreye.Props.C06Exact", "Dreye.Props.ExtrasB"],
     "C08": ["Dreye.Props.Cert"], "C09": ["Dreye.Props.Cert"], "C10": ["Dreye.Props.Cert"],
     "C16": ["Dreye.Props.C16Bary", "Dreye.Props.Linalg", "Dreye.Props.C16Round"],
-    "C19": ["Dreye.Props.ExtrasB"],
+    "C19": ["Dreye.Props.ExtrasB", "Dreye.Props.C19Regrid"],
+    "C02": ["Dreye.Props.C19Regrid"],
 }
 # namespaces (besides Dreye.<prop>) whose theorems count as obligations of a property
-EXTRA_PREFIX = {"C16": ["Dreye.LinalgProps."], "C06": ["Dreye.LinalgProps."], "C04": ["Dreye.Cert."], "C08": ["Dreye.Cert."],
+EXTRA_PREFIX = {"C02": ["Dreye.C19.linspace_", "Dreye.C19.regrid_", "Dreye.C19.sortAsc_"], "C16": ["Dreye.LinalgProps."], "C06": ["Dreye.LinalgProps."], "C04": ["Dreye.Cert."], "C08": ["Dreye.Cert."],
                 "C09": ["Dreye.Cert."], "C10": ["Dreye.Cert."]}
 ALLOWED_AXIOMS = {"propext", "Classical.choice", "Quot.sound"}
 FORBIDDEN = ["sorry", "admit", "native_decide", "bv_decide", "implemented_by", "unsafe ",
